@@ -16,7 +16,7 @@ from ..pool import pmap
 
 
 def edges(cfgname: str) -> List[Dict[str, Any]]:
-    res = tlc.run_tlc("MC_Identity", cfgname, workers=1, parse_emitted=True, timeout=900)
+    res = tlc.run_tlc("MC_Identity", cfgname, workers=1, parse_emitted=True, timeout=3000)
     if not res.emitted:
         raise core.MachineryError(f"{cfgname}: no edges emitted")
     return res.emitted
@@ -63,10 +63,11 @@ def check(tier: str) -> int:
                 "by build_inspection_payload; non-trivial = edges touching a sweep definition or a nested parameter")
     run.assumptions = ["the `collection` field of a sweep has a single admissible value in the library and is not mutated",
                        "non-equivalent expression mutations: added constant, swapped operands of '-', + <-> * at the root and at an inner node"]
-    res = tlc.run_tlc("MC_Identity", "Identity.d2.check", coverage=True, timeout=900)
+    depth = "d2" if tier == "quick" else "d3"
+    res = tlc.run_tlc("MC_Identity", f"Identity.{depth}.check", coverage=True, timeout=3000)
     run.add_tlc(res)
-    run.require_tlc_ok(res, "Identity.d2.check")
-    es = edges("Identity.d2.emit")
+    run.require_tlc_ok(res, f"Identity.{depth}.check")
+    es = edges(f"Identity.{depth}.emit")
     acts: Dict[str, int] = {}
     for r in pmap(check_chunk, es, chunk=100):
         run.evaluations += r["n"]
